@@ -14,8 +14,9 @@ import struct
 
 from harness.check import Component
 
-LEAN_TARGETS = ["Aiortc.Props.C18"]
-DRIVERS = ["Stats"]
+LEAN_TARGETS = ["Aiortc.Props.C18", "Aiortc.Props.C18Ntp"]
+DRIVERS = ["Stats", "Ntp"]
+AUDIT_PROPS = ["C18", "C18Ntp"]
 MANIFEST = {
     "technique": "Lean 4 invariant proofs (induction over the arrival history) about an executable model of StreamStatistics / "
                  "_run_rtcp report construction / RtcpReceiverInfo.__bytes__, tied to the Python code by differential execution",
@@ -24,7 +25,10 @@ MANIFEST = {
             "are the RFC 3550 A.3 figures, _jitter_q4 follows the A.8 recurrence in 32-bit arithmetic, and every field of the "
             "RtcpReceiverInfo built from a reachable state fits its width so serialisation returns 24 bytes and never raises. "
             "The model is run against StreamStatistics, RTCRtpReceiver (_handle_rtp_packet/_handle_rtcp_packet/_run_rtcp/getStats) "
-            "and RtcpReceiverInfo.__bytes__ on generated histories with a scripted clock.",
+            "and RtcpReceiverInfo.__bytes__ on generated histories with a scripted clock.  Props/C18Ntp.lean covers the NTP timestamp "
+            "behind LSR (clock.datetime_to_ntp / datetime_from_ntp, Model/Ntp.lean): the fraction word fits 32 bits, the timestamp fits the "
+            "64-bit SR field exactly until the NTP era ends, it is monotone in time, LSR is the middle 32 bits, and datetime_from_ntp "
+            "inverts datetime_to_ntp to the microsecond and is total on every 64-bit value.",
     "note": "Needs fixes/C18-jitter-32bit-arithmetic.patch and fixes/C18-highest-sequence-cycles.patch applied to the repo "
             "(the pinned code violates clauses 2, 4 and 5 of the property; the model is of the fixed code).",
     "design_ref": "DESIGN.md §2 C18",
@@ -41,6 +45,9 @@ ASSUMPTIONS = [
     "((2 << 6) | count must be a byte); rr_packet_ok: at most 31 streams (the RC field has 5 bits; the property is per SSRC)",
 ]
 TRUSTED_EXTRA = [
+    "clock.py: int(delta.total_seconds()) is modelled as days*86400+seconds (exact for the float below 2^32 s, compared by the ntp "
+    "component up to 70000 days); the float microseconds of datetime_from_ntp are exact (numerator < 2^52, divisor 2^32) and timedelta's "
+    "round-half-even is modelled as such; dates before 1900 (negative deltas) are not modelled",
     "float arithmetic of int(time.time()*clockrate) and of time.time()-lsr_time is not modelled: the harness evaluates the same "
     "Python expressions on the scripted clock values and hands the resulting integer / exact rational to the model",
     "asyncio scheduling of _run_rtcp (sleep, random interval) is replaced by a single loop iteration; the decoder thread is not started",
@@ -801,9 +808,106 @@ class Info(Component):
     def label(self, case, impl_out):
         return ("ppl-" if "ppl" in case else "info-") + ("ok" if impl_out.startswith("ok") else impl_out[:24].replace(" ", "-"))
 
+# ------------------------------------------------------------------------------------------------
+# component 4: clock.datetime_to_ntp / datetime_from_ntp (the NTP timestamp behind the LSR field)
+# ------------------------------------------------------------------------------------------------
+NTP_ERA_DAYS = (1 << 32) // 86400          # 49710 days: the 32-bit seconds run out on 2036-02-07
+
+
+class Ntp(Component):
+    name = "ntp"
+    theorems = ["low_lt", "low_floor", "toNtp_eq", "toNtp_seconds", "toNtp_fraction", "toNtp_fits_iff", "toNtp_mono",
+                "toNtp_strict", "lsr_of_toNtp", "from_to", "fromNtp_normalised", "fromNtp_range"]
+
+    def corpus(self):
+        return [{"to": [0, 0, 0]}, {"to": [45920, 43200, 500000]}, {"to": [NTP_ERA_DAYS, 23295, 999999]},
+                {"to": [NTP_ERA_DAYS, 23296, 0]}, {"to": [60000, 86399, 999999]},
+                {"from": 0}, {"from": (1 << 64) - 1}, {"from": 33554432}, {"from": (1 << 32) - 1}, {"from": 3 * 33554432}]
+
+    def cases(self, rng, tier):
+        n = 400 if tier == "quick" else 20000
+        out = []
+        for _ in range(n):
+            r = rng.random()
+            if r < 0.5:
+                d = rng.choice([0, 1, NTP_ERA_DAYS - 1, NTP_ERA_DAYS, NTP_ERA_DAYS + 1, rng.randrange(0, NTP_ERA_DAYS + 1),
+                                rng.randrange(40000, 50000), rng.randrange(0, 70000)])
+                s = rng.choice([0, 1, 23295, 23296, 86399, rng.randrange(86400)])
+                m = rng.choice([0, 1, 499999, 500000, 999999, rng.randrange(1000000), rng.randrange(1000000)])
+                out.append({"to": [d, s, m]})
+            else:
+                hi = rng.choice([0, 1, (1 << 32) - 1, (1 << 31), rng.randrange(1 << 32), rng.randrange(1 << 32)])
+                lo = rng.choice([0, 1, (1 << 32) - 1, (1 << 31), 33554432 * rng.randrange(1, 128), rng.randrange(1 << 32),
+                                 rng.randrange(1 << 32), (1 << 32) - rng.randrange(1, 5000)])
+                out.append({"from": (hi << 32) | lo})
+        return out
+
+    def model_line(self, case):
+        if "to" in case:
+            return "ntp to " + " ".join(str(v) for v in case["to"])
+        return f"ntp from {case['from']}"
+
+    def impl(self, case):
+        import datetime
+        from aiortc import clock
+        try:
+            if "to" in case:
+                d, s, m = case["to"]
+                return f"ok {clock.datetime_to_ntp(clock.NTP_EPOCH + datetime.timedelta(days=d, seconds=s, microseconds=m))}"
+            delta = clock.datetime_from_ntp(case["from"]) - clock.NTP_EPOCH
+            return f"ok {delta.days} {delta.seconds} {delta.microseconds}"
+        except Exception as exc:
+            return _exc_tag(exc)
+
+    def oracle(self, case, impl_out):
+        import datetime
+        from aiortc import clock
+        if not impl_out.startswith("ok "):
+            return f"clock conversion of {case} raised {impl_out}"
+        if "to" in case:
+            d, s, m = case["to"]
+            ntp = int(impl_out[3:])
+            secs = d * 86400 + s
+            if secs >= M32:
+                return None                          # beyond the NTP era: no claim
+            if ntp >> 32 != secs:
+                return f"datetime_to_ntp: seconds word {ntp >> 32} != {secs} for delta {case['to']}"
+            if (ntp & (M32 - 1)) != (m << 32) // 1000000:
+                return f"datetime_to_ntp: fraction word {ntp & (M32 - 1)} is not floor({m} * 2^32 / 10^6)"
+            back = clock.datetime_from_ntp(ntp) - clock.NTP_EPOCH
+            if (back.days, back.seconds, back.microseconds) != (d, s, m):
+                return f"datetime_from_ntp(datetime_to_ntp(x)) != x for delta {case['to']}: got {back}"
+            return None
+        d, s, m = (int(x) for x in impl_out[3:].split())
+        ntp = case["from"]
+        # nearest microsecond: |(d*86400+s)*10^6 + m  -  ntp*10^6/2^32| <= 1/2
+        err2 = abs((((d * 86400 + s) * 1000000 + m) << 33) - 2 * ntp * 1000000)
+        if err2 > M32:
+            return f"datetime_from_ntp({ntp}) = {d}d {s}s {m}us is not the nearest microsecond"
+        return None
+
+    def label(self, case, impl_out):
+        if "to" in case:
+            d, s, m = case["to"]
+            era = "era" if d * 86400 + s < M32 else "past-era"
+            return f"to/{era}/" + ("us0" if m == 0 else "us-max" if m == 999999 else "us")
+        lo = case["from"] & (M32 - 1)
+        tie = (lo * 1000000 * 2) % M32 == 0 and (lo * 1000000) % M32 != 0
+        return "from/" + ("tie" if tie else "carry" if lo * 1000000 * 2 + M32 >= 2 * M32 * 1000000 else "plain")
+
+    def nontrivial(self, case, impl_out):
+        return case.get("to", [1])[-1] != 0 or case.get("from", 0) != 0
+
+    def shrink(self, case):
+        if "to" in case:
+            d, s, m = case["to"]
+            return [{"to": v} for v in ([d // 2, s, m], [d, s // 2, m], [d, s, m // 2], [d, 0, m], [d, s, 0]) if v != case["to"]]
+        n = case["from"]
+        return [{"from": v} for v in (n >> 1, n & (M32 - 1), n & ~(M32 - 1)) if v != n]
+
 
 def components(tier):
-    return [Stats(), Receiver(), Info()]
+    return [Stats(), Receiver(), Info(), Ntp()]
 
 
 def classify_finding(finding, comp_name, case, what):
